@@ -41,6 +41,7 @@ func propC03(c *Ctx) {
 	c.ruleLoopFlags("C03-LOOP-FLAG")
 	c.ruleEarlySuccess("C03-EARLY-SUCCESS")
 	c.ruleDeadErrorStores("C03-DEAD-ERROR-STORE")
+	c.ruleTypedNilError("C03-TYPED-NIL-ERROR")
 }
 
 // orderedMapType: is t (pointer to) one of the generated ordered maps (struct with data map + order slice)?
